@@ -29,6 +29,8 @@ RELATED = {
     "server.go": ["C16", "C05"],
 }
 
+SECOND_ROUND = False
+
 OPS = [
     (r"==", "!="), (r"!=", "=="),
     (r"<=", "<"), (r">=", ">"),
@@ -95,6 +97,25 @@ def gen_mutants(relpath, src):
             out.append((ln, "delete call", re.match(r"^\s*", line).group(0) + "_ = 0"))
         if stripped in ("continue", "break"):
             out.append((ln, "delete " + stripped, re.match(r"^\s*", line).group(0) + "_ = 0"))
+        if SECOND_ROUND:
+            indent = re.match(r"^\s*", line).group(0)
+            m = re.match(r"^(\s*(?:\} else )?if )([^;{]+)( \{\s*)$", code)
+            if m and "err" != m.group(2).strip():
+                out.append((ln, "if cond -> if true", m.group(1) + "true || (" + m.group(2) + ")" + m.group(3)))
+                out.append((ln, "if cond -> if false", m.group(1) + "false && (" + m.group(2) + ")" + m.group(3)))
+            if re.match(r"^\s*return err\s*$", code):
+                out.append((ln, "return err -> return nil", indent + "return nil"))
+            m = re.match(r"^(\s*return )(.+), err\s*$", code)
+            if m:
+                out.append((ln, "return x, err -> return x, nil", m.group(1) + m.group(2) + ", nil"))
+            if re.match(r"^\s*defer [A-Za-z_][\w\.]*\(.*\)\s*$", code):
+                out.append((ln, "delete defer", indent + "_ = 0"))
+            # swap with the next line when both are simple statements at the same indent
+            if ln + 1 < len(lines):
+                nxt = lines[ln + 1]
+                simple = lambda l: re.match(r"^\s*[A-Za-z_][\w\.\[\]\*]*(\(.*\)|\s*(=|\+=|-=|\+\+|--).*)\s*$", code_part(l)) and not code_part(l).strip().endswith("{")
+                if simple(line) and simple(nxt) and re.match(r"^\s*", nxt).group(0) == indent and "verifYield" not in nxt and nxt.strip() != line.strip():
+                    out.append((ln, "swap with next statement", "SWAP"))
     return out
 
 
@@ -113,7 +134,11 @@ def worker(wid, q, results, lock, tier, repo_head):
             orig = open(path).read()
             lines = orig.split("\n")
             old = lines[ln]
-            lines[ln] = newline
+            if newline == "SWAP":
+                lines[ln], lines[ln + 1] = lines[ln + 1], lines[ln]
+                newline = lines[ln] + " <-> " + lines[ln + 1].strip()
+            else:
+                lines[ln] = newline
             open(path, "w").write("\n".join(lines))
             rec = dict(id=mid, file=relpath, line=ln + 1, op=op, old=old.strip(), new=newline.strip())
             try:
@@ -156,7 +181,11 @@ def main():
     ap.add_argument("--stride", type=int, default=1, help="take every n-th mutant (deterministic subsample)")
     ap.add_argument("--tier", default="quick")
     ap.add_argument("--out", default=os.path.join(VERIF, "mutation", "results.jsonl"))
+    ap.add_argument("--second", action="store_true", help="second-round operators only (conditions forced, errors dropped, defers deleted, statements swapped)")
     a = ap.parse_args()
+    global SECOND_ROUND, OPS
+    if a.second:
+        SECOND_ROUND, OPS = True, []
     files = [f for f in RELATED if not a.files or f in a.files.split(",")]
     head = sh("git -C /repo rev-parse HEAD")[1].strip()
     q = queue.Queue()
